@@ -71,6 +71,12 @@ class Exec {
   std::vector<std::string> names_of(int c);               // names connection c holds (any queue position) + unique name
   void install_policy_hooks();
   std::string known_validator_gap(const std::string &bytes, const std::string &reason);
+  // ---- C15: descriptors
+  struct FdIdent { unsigned long dev, ino; };
+  std::map<std::pair<int, uint32_t>, std::vector<FdIdent>> fd_idents;   // (sender, serial) -> the open files attached, in order
+  std::map<int, int64_t> fd_surplus;          // sender that attached more descriptors than announced -> when
+  std::vector<size_t> fd_checked;             // per client: got[] index up to which descriptors were compared
+  void check_fds(int ci);
   bool tainted = false;            // a listed finding made the model lose track: no further comparisons in this run
   bw::BusLimits lim_cfg;
   void sync_names();
